@@ -23,6 +23,7 @@ pub mod c17;
 pub mod c10_conn;
 pub mod c18;
 pub mod c19;
+pub mod c20;
 pub mod smoke;
 
 pub struct Entry {
@@ -52,6 +53,7 @@ pub const REGISTRY: &[Entry] = &[
     Entry { id: "C17", run: c17::run, replay: c17::replay },
     Entry { id: "C18", run: c18::run, replay: c18::replay },
     Entry { id: "C19", run: c19::run, replay: c19::replay },
+    Entry { id: "C20", run: c20::run, replay: c20::replay },
 ];
 
 /// read the `case` member of a replay file
